@@ -634,18 +634,38 @@ def _r11g(rep, tu, P):
     if fn is None:
         raise AnalysisError("anchor vanished: get_integration_weight")
 
+    # C names by role (parameters by position; the array handed to sort_omegas, the variable that receives its result
+    # and the accumulator), so that a renamed local or parameter changes nothing
+    cren = {}
+    ps_ = [p_.get("name") for p_ in cast.params(fn)]
+    if len(ps_) != 4:
+        raise AnalysisError(f"get_integration_weight: {len(ps_)} parameters, expected 4")
+    cren.update({ps_[0]: "omega", ps_[2]: "gn", ps_[3]: "IJ"})
+    for x in cast.walk(fn):
+        if x.get("kind") == "BinaryOperator" and x.get("opcode") == "=":
+            l_, r_ = cast.kids(x)
+            r_ = cast.strip(r_)
+            if r_.get("kind") == "CallExpr" and cast.callee_name(r_) == "sort_omegas":
+                cren[cast.text(cast.strip(l_))] = "ci"
+                cren[cast.text(cast.strip(cast.call_args(r_)[0]))] = "v"
+        if x.get("kind") == "CompoundAssignOperator":
+            cren[cast.text(cast.strip(cast.kids(x)[0]))] = "sum"
+
+    def ctext(e):
+        return re.sub(r"\b[A-Za-z_]\w*\b", lambda m: cren.get(m.group(0), m.group(0)), cast.text(e))
+
     def c_atoms(e):
         e = cast.strip(e)
         if e.get("kind") == "BinaryOperator" and e.get("opcode") == "&&":
             a, b = cast.kids(e)
             return c_atoms(a) | c_atoms(b)
         if e.get("kind") == "BinaryOperator" and e.get("opcode") in ("<", ">", "<=", ">="):
-            a, b = (cast.text(cast.strip(x)) for x in cast.kids(e))
+            a, b = (ctext(cast.strip(x)) for x in cast.kids(e))
             op = e["opcode"]
             if op in (">", ">="):
                 a, b, op = b, a, {">": "<", ">=": "<="}[op]
             return {(a, op, b)}
-        raise AnalysisError(f"get_integration_weight: unsupported condition {cast.text(e)}")
+        raise AnalysisError(f"get_integration_weight: unsupported condition {ctext(e)}")
 
     c_cases = []
     for x in cast.walk(fn):
@@ -656,9 +676,9 @@ def _r11g(rep, tu, P):
                 continue
             rhs = cast.strip(cast.kids(accs[0])[1])
             calls = [y for y in cast.walk(rhs) if y.get("kind") == "CallExpr"]
-            ks_ = sorted({cast.text(cast.call_args(y)[0]) for y in calls})
-            callees = sorted(cast.text(cast.kids(y)[0]) for y in calls)
-            shape = cast.text(rhs)
+            ks_ = sorted({ctext(cast.call_args(y)[0]) for y in calls})
+            callees = sorted(ctext(cast.kids(y)[0]) for y in calls)
+            shape = ctext(rhs)
             c_cases.append((frozenset(c_atoms(ks[0])), ks_, callees, accs[0].get("opcode"), "ci" in shape))
     pf = P.methods.get("_get_integration_weight_py")
     if pf is None:
@@ -674,7 +694,7 @@ def _r11g(rep, tu, P):
             out = set()
             left = t.left
             for op, right in zip(t.ops, t.comparators):
-                a, b = core.src(left), core.src(right)
+                a, b = rsrc(left), rsrc(right)
                 o = {ast.Lt: "<", ast.Gt: ">", ast.LtE: "<=", ast.GtE: ">="}.get(type(op))
                 if o is None:
                     raise AnalysisError(f"unsupported comparison {core.src(t)}")
@@ -685,14 +705,45 @@ def _r11g(rep, tu, P):
             return out
         raise AnalysisError(f"unsupported condition {core.src(t)}")
 
+    # locals by role, so that a renamed local changes nothing: the two callees bound by the selector on 'value', the
+    # targets of the loop over (tetrahedron frequencies, sort indices, central index) and the sorted-frequency alias
+    ren = {}
+    for n in ast.walk(pf):
+        if isinstance(n, ast.Assign) and len(n.targets) == 1 and isinstance(n.targets[0], ast.Name):
+            v_ = core.src(n.value)
+            if v_ in ("self._I", "self._J"):
+                ren[n.targets[0].id] = "IJ"
+            elif v_ in ("self._g", "self._n"):
+                ren[n.targets[0].id] = "gn"
+        if isinstance(n, ast.For) and isinstance(n.iter, ast.Call) and core.src(n.iter.func) == "zip" and isinstance(n.target, ast.Tuple) and len(n.target.elts) == 3:
+            for t_, role in zip(n.target.elts, ("omegas", "indices", "ci")):
+                if isinstance(t_, ast.Name):
+                    ren[t_.id] = role
+    for n in ast.walk(pf):
+        if isinstance(n, ast.Assign) and len(n.targets) == 1 and isinstance(n.targets[0], ast.Name):
+            val = n.value
+            if core.src(val) == "self._vertices_omegas" or (isinstance(val, ast.Subscript) and isinstance(val.value, ast.Name) and ren.get(val.value.id) == "omegas"):
+                ren[n.targets[0].id] = "v"
+    for p_ in pf.args.args[1:2]:
+        ren[p_.arg] = "omega"
+
+    class _Ren(ast.NodeTransformer):
+        def visit_Name(self, node):
+            return ast.copy_location(ast.Name(id=ren.get(node.id, node.id), ctx=node.ctx), node)
+
+    def rsrc(node):
+        import copy
+
+        return core.src(_Ren().visit(copy.deepcopy(node)))
+
     py_cases = []
     for n in ast.walk(pf):
         if isinstance(n, ast.If) and any(isinstance(s_, ast.AugAssign) for s_ in n.body):
             aug = [s_ for s_ in n.body if isinstance(s_, ast.AugAssign)][0]
             calls = [c for c in ast.walk(aug.value) if isinstance(c, ast.Call) and isinstance(c.func, ast.Name)]
             ks_ = sorted({core.src(c.args[0]) for c in calls})
-            callees = sorted(c.func.id for c in calls)
-            py_cases.append((frozenset(py_atoms(n.test)), ks_, callees, "+=" if isinstance(aug.op, ast.Add) else "?", "indices == ci" in core.src(aug.value)))
+            callees = sorted(ren.get(c.func.id, c.func.id) for c in calls)
+            py_cases.append((frozenset(py_atoms(n.test)), ks_, callees, "+=" if isinstance(aug.op, ast.Add) else "?", "indices == ci" in rsrc(aug.value)))
     if len(c_cases) != 5 or len(py_cases) != 5:
         raise AnalysisError(f"case split: found {len(c_cases)} C cases and {len(py_cases)} Python cases, expected 5 and 5")
     for k, (cc, pc) in enumerate(zip(c_cases, py_cases)):
@@ -717,21 +768,28 @@ def _r11g(rep, tu, P):
                 return False
         return True
 
-    rets = [cast.text(cast.kids(x)[0]) for x in cast.walk(fn) if x.get("kind") == "ReturnStmt"]
+    rets = [ctext(cast.kids(x)[0]) for x in cast.walk(fn) if x.get("kind") == "ReturnStmt"]
     rep.instance("R11g", CF, "get_integration_weight", str(rets), one_sixth(rets, {"sum"}), "C sum over the 24 tetrahedra is not divided by 6", line=tu.line(fn))
     prets = [core.src(n.value) for n in ast.walk(pf) if isinstance(n, ast.Return)]
     py_acc = {core.src(a.target) for a in ast.walk(pf) if isinstance(a, ast.AugAssign) and isinstance(a.target, ast.Name)}
     rep.instance("R11g", PY, f"{CLS}._get_integration_weight_py", str(prets), one_sixth(prets, py_acc), "Python sum over the 24 tetrahedra is not divided by 6", line=pf.lineno)
     sel = tu.functions.get("thm_get_integration_weight")
-    calls = [cast.text(cast.kids(x)[0]) for x in cast.walk(sel) if x.get("kind") == "ReturnStmt"]
-    conds = [cast.text(cast.kids(x)[0]) for x in cast.walk(sel) if x.get("kind") == "IfStmt"]
+    if sel is None:
+        raise AnalysisError("anchor vanished: thm_get_integration_weight")
+    sp_ = [p_.get("name") for p_ in cast.params(sel)]
+    sren = {nm_: f"p{i_}" for i_, nm_ in enumerate(sp_)}
+
+    def stext(e):
+        return re.sub(r"\b[A-Za-z_]\w*\b", lambda m: sren.get(m.group(0), m.group(0)), cast.text(e))
+
+    calls = [stext(cast.kids(x)[0]) for x in cast.walk(sel) if x.get("kind") == "ReturnStmt"]
+    conds = [stext(cast.kids(x)[0]) for x in cast.walk(sel) if x.get("kind") == "IfStmt"]
     rep.instance("R11g", CF, "thm_get_integration_weight", f"{conds} -> {calls}",
-                 conds == ["function == 'I'"] and calls == ["get_integration_weight(omega, tetrahedra_omegas, _g, _I)", "get_integration_weight(omega, tetrahedra_omegas, _n, _J)"]
-,
+                 conds == ["p2 == 'I'"] and calls == ["get_integration_weight(p0, p1, _g, _I)", "get_integration_weight(p0, p1, _n, _J)"],
                  "C selector does not pair 'I' with (_g, _I) and otherwise (_n, _J)", line=tu.line(sel))
     sel_py = {}
     for n in ast.walk(pf):
-        if isinstance(n, ast.If) and core.src(n.test) == "value == 'I'":
+        if isinstance(n, ast.If) and len(pf.args.args) > 2 and core.src(n.test) == f"{pf.args.args[2].arg} == 'I'":
             sel_py["I"] = sorted(core.src(s) for s in n.body)
             sel_py["else"] = sorted(core.src(s) for s in n.orelse)
     # by role: the two names bound in the selector are the callees of the product that each case adds
